@@ -137,6 +137,14 @@ namespace vf::rt {
         int stranded_after_samples = 0;
         // tasks the program keeps blocked on purpose for the time being (they are not evidence of a deadlock)
         std::atomic<long long> expected_suspended{0};
+        // opt-in livelock rule: the target bumps `progress` whenever the generated program gets anywhere (an op of a body done,
+        // a task finished, a round acknowledged).  If the runtime keeps activating tasks at full speed (> 2000 activations per
+        // sample) for livelock_after_samples consecutive samples while `progress` does not move, the main thread waits and no
+        // external actor is alive, the activity is not the program's: something internal re-schedules itself for ever.
+        std::atomic<std::uint64_t> progress{0};
+        int livelock_after_samples = 0;
+        // tasks that are really inside their coroutine call right now (hook sites 1/2), as opposed to what their state word says
+        std::atomic<long long> running_now{0};
         // flight recorder: the last hook events (all sites), dumped into failure messages on request
         struct Rec { std::atomic<std::uint64_t> seq{0}; int site = 0; void const* obj = nullptr; std::uint64_t a = 0, b = 0; long tid = 0; };
         static constexpr std::size_t nrec = 1u << 13;
@@ -250,6 +258,8 @@ namespace vf::rt {
             r.tid = tid;
             r.seq.store(i + 1, std::memory_order_release);
         }
+        if (site == vf::S_SL_BEFORE_RUN) g.running_now.fetch_add(1, std::memory_order_relaxed);
+        else if (site == vf::S_SL_AFTER_RUN) g.running_now.fetch_sub(1, std::memory_order_relaxed);
         if (g.monitor_on.load(std::memory_order_relaxed))
         {
             if (site == vf::S_SL_BEFORE_RUN)
@@ -441,7 +451,7 @@ namespace vf::rt {
             stop_mode.store(1);
         }
 
-        static bool snapshot(long long& suspended, std::string& detail, long long* pending_out = nullptr)
+        static bool snapshot(long long& suspended, std::string& detail, long long* pending_out = nullptr, bool* phantom_active = nullptr)
         {
             using pika::threads::detail::thread_schedule_state;
             long long act = 0, pend = 0, stag = 0, susp = 0, poll = 0, qlen = 0;
@@ -471,6 +481,8 @@ namespace vf::rt {
             // staged descriptions).  A task whose state word says pending but which sits in no queue
             // is not runnable: counting queue contents, not state words, is what makes a dropped
             // task visible.  (A worker holding a just-popped task moves the activation counter.)
+            // a task whose state word says 'active' while no worker is inside any coroutine call: nobody runs it and nobody will
+            if (phantom_active) *phantom_active = act > 0 && G().running_now.load() == 0 && qlen == 0 && stag == 0 && poll == 0;
             return act == 0 && qlen == 0 && stag == 0 && poll == 0;
         }
 
@@ -479,7 +491,9 @@ namespace vf::rt {
             // (environment is read on the calling thread: getenv is not safe against a concurrent setenv)
             double dump_after = std::getenv("VERIF_DEBUG_DUMP") ? std::atof(std::getenv("VERIF_DEBUG_DUMP")) : 0;
             th = std::thread([this, dump_after] {
-                int quiet = 0, stranded = 0;
+                int quiet = 0, stranded = 0, ll_samples = 0, phantom_n = 0;
+                std::uint64_t phantom_phase = 0;
+                std::uint64_t ll_progress = 0, ll_phase = 0, ll_phase0 = 0;
                 std::uint64_t stranded_phase = 0;
                 double t_start = now_s();
                 std::uint64_t first_phase = 0;
@@ -489,6 +503,21 @@ namespace vf::rt {
                     nanosleep(&ts, nullptr);
                     if (stop.load()) break;
                     check_bounded_calls();
+                    if (G().livelock_after_samples > 0 && !stop_mode.load())
+                    {
+                        std::uint64_t pr = G().progress.load(), ph = G().phase_counter.load();
+                        bool busy = ph - ll_phase > 2000;
+                        if (pr == ll_progress && busy && G().main_waiting.load() && G().external_actors.load() == 0)
+                        {
+                            if (++ll_samples >= G().livelock_after_samples)
+                                fail_now("livelock_no_progress", "for " + std::to_string(ll_samples) + " consecutive samples (" + std::to_string(ll_samples * period_ms) +
+                                        " ms) the runtime kept activating tasks (" + std::to_string(ph - ll_phase0) + " activations) while the generated program made no progress at all and only the runtime itself can be producing that work; " +
+                                        (G().diagnose ? G().diagnose() : std::string()));
+                        }
+                        else { ll_samples = 0; ll_phase0 = ph; }
+                        ll_progress = pr;
+                        ll_phase = ph;
+                    }
                     std::unique_lock<std::mutex> snap_lock(snap_mtx);
                     if (dump_after > 0 && now_s() - t_start > dump_after && !stop_mode.load())
                     {
@@ -526,8 +555,17 @@ namespace vf::rt {
                     std::string d;
                     bool q = false;
                     std::uint64_t ph0 = G().phase_counter.load();
-                    try { q = snapshot(susp, d, &pend); } catch (...) { q = false; }
+                    bool phantom = false;
+                    try { q = snapshot(susp, d, &pend, &phantom); } catch (...) { q = false; }
                     std::uint64_t ph = G().phase_counter.load();
+                    if (phantom && ph == ph0 && G().running_now.load() == 0)
+                    {
+                        if (phantom_n == 0 || ph != phantom_phase) { phantom_n = 1; phantom_phase = ph; }
+                        else if (++phantom_n >= 4 * K)
+                            fail_now("task_marked_active_but_not_running", "for " + std::to_string(phantom_n) + " consecutive samples no worker was inside a task and no task was activated, nothing is queued, but a task's state is 'active' (" + d +
+                                    "): its state transition after leaving the worker was lost, it can never be resumed or finished; " + (G().diagnose ? G().diagnose() : std::string()));
+                    }
+                    else phantom_n = 0;
                     if (!q && G().stranded_after_samples > 0 && ph == ph0 && d.find("active=0 ") == 0 && d.find("polling=0 ") != std::string::npos)
                     {
                         // not quiescent only because queues still hold something: is anybody ever going to run it?
